@@ -536,7 +536,11 @@ def run_scale(part, n):
 def worker(shard, part):
     what = shard[0]
     if what == "scale":
-        run_scale(part, shard[1])
+        old = sys.getrecursionlimit()
+        try:
+            run_scale(part, shard[1])
+        finally:
+            sys.setrecursionlimit(old)
         return
     if what == "terms":
         _, strat, lo, hi, deep = shard
